@@ -3,6 +3,7 @@ package main
 import (
 	"fmt"
 	"go/ast"
+	"go/constant"
 	"go/token"
 	"go/types"
 	"sort"
@@ -27,6 +28,8 @@ func runC09(c *Ctx) {
 	c.Rule("R9.4", 1, "a count that does not fit into an int is rejected, not wrapped around")
 	c.Rule("R9.3", 3, "the escape list equals the documented one and is used on both sides")
 	c.Rule("R9.5", 20, "the combinator grammar equals the documented pattern grammar rule by rule")
+	c.Rule("R9.6", 4, "a range end is clipped to an interval that reaches beyond the table of supported characters, so that the group mapper still finds it unsupported")
+	checkClampKeepsOutsider(c, "R9.6")
 	checkRegexGrammarDocs(c, "R9.5")
 	checkClassPresence(c, "R9.2")
 	checkRuneHelperResults(c, "R9.2")
@@ -70,6 +73,35 @@ func checkRemaining(c *Ctx, pp *packages.Package) {
 	if remainingChecked(fn, nil) {
 		c.Pass("R9.1", "Parser.Parse succeeds only if nothing remains of the input", fd.Pos(), "Remaining is compared with nil on the path to the successful return")
 		return
+	}
+	// the check may be a combinator of its own (a parser that fails unless its input is nil, bound behind the top-level rule):
+	// where such a parser exists in the package, whether it sits behind the rule Parse runs is not followed, and that is undecided
+	if sp := c.SSAPk[pp.PkgPath]; sp != nil {
+		for _, f := range ssaFuncsOf(c, sp) {
+			sig := f.Signature
+			if sig.Params().Len() != 1 || sig.Results().Len() != 2 || !typeIs(sig.Params().At(0).Type(), "parser/combinator", "Input") {
+				continue
+			}
+			if len(f.Params) == 0 {
+				continue
+			}
+			par := f.Params[len(f.Params)-1]
+			for _, r := range *par.Referrers() {
+				bo, ok := r.(*ssa.BinOp)
+				if !ok || (bo.Op != token.EQL && bo.Op != token.NEQ) {
+					continue
+				}
+				if k, ok := bo.Y.(*ssa.Const); ok && k.IsNil() {
+					for _, rr := range *bo.Referrers() {
+						if _, isIf := rr.(*ssa.If); isIf {
+							c.Undecided("R9.1", "Parser.Parse succeeds only if nothing remains of the input", fd.Pos(),
+								"Remaining is not compared with nil in Parse, but "+shortFn(f)+" is a parser that tests its input against nil (an end-of-input combinator): whether it is bound behind the rule Parse runs is not followed")
+							return
+						}
+					}
+				}
+			}
+		}
 	}
 	// otherwise every caller must check
 	callers := 0
@@ -920,4 +952,117 @@ func condAtoms(info *types.Info, e ast.Expr, abstractType func(types.Type) strin
 	}
 	walk(e)
 	return out
+}
+
+// checkClampKeepsOutsider (R9.6 = R7.8): where a mapper clips a parsed character with min/max before enumerating a range, the
+// clipping interval must reach beyond the table of supported characters on both sides. The group mapper turns a character down by
+// finding it outside the table; a range clipped to the table itself loses its unsupported part silently and the pattern is
+// accepted. The bounds are read as a + b*len(table).
+func checkClampKeepsOutsider(c *Ctx, rule string) {
+	n := 0
+	for _, pk := range []string{"internal/regex/parser/nfa", "internal/regex/parser/ast"} {
+		sp := c.SSAPk[modPath+"/"+pk]
+		if sp == nil {
+			continue
+		}
+		for _, mem := range sp.Members {
+			t, ok := mem.(*ssa.Type)
+			if !ok {
+				continue
+			}
+			for _, recv := range []types.Type{t.Type(), types.NewPointer(t.Type())} {
+				ms := c.Prog.MethodSets.MethodSet(recv)
+				for i := 0; i < ms.Len(); i++ {
+					f := c.Prog.MethodValue(ms.At(i))
+					if f == nil || f.Pkg != sp || len(f.Blocks) == 0 {
+						continue
+					}
+					for _, b := range f.Blocks {
+						for _, in := range b.Instrs {
+							call, ok := in.(*ssa.Call)
+							if !ok {
+								continue
+							}
+							bi, ok := call.Call.Value.(*ssa.Builtin)
+							if !ok || (bi.Name() != "min" && bi.Name() != "max") || len(call.Call.Args) != 2 {
+								continue
+							}
+							if bt, ok := call.Type().Underlying().(*types.Basic); !ok || bt.Kind() != types.Int32 {
+								continue
+							}
+							// the bound is the operand that is affine in len(table); the other one is the character
+							for _, arg := range call.Call.Args {
+								a, k, ok := affineInLen(arg, 0)
+								if !ok {
+									continue
+								}
+								n++
+								key := fmt.Sprintf("%s: %s(character, %s) leaves an unsupported character outside the table", shortFn(f), bi.Name(), affineText(a, k))
+								switch bi.Name() {
+								case "max":
+									c.Check(rule, key, call.Pos(), k == 0 && a <= -1, "the lower clipping bound is "+affineText(a, k)+": a character below the table is moved into it, the group mapper no longer sees anything unsupported and the pattern is accepted",
+										`[\x80000000-a] (a negative code point as the lower end of a range)`)
+								case "min":
+									c.Check(rule, key, call.Pos(), (k == 1 && a >= 0) || (k == 0 && a >= 128), "the upper clipping bound is "+affineText(a, k)+": a character beyond the table is moved onto its last entry, the group mapper no longer sees anything unsupported and the pattern is accepted",
+										`[a-\x00E9]: accepted as [a-\x7F] instead of being rejected`)
+								}
+							}
+						}
+					}
+				}
+			}
+		}
+	}
+	if n == 0 {
+		c.Undecided(rule, "clipping of range ends in the mappers", token.NoPos, "no min/max clipping of a character against the table was found")
+	}
+}
+
+// affineInLen reads v as a + k*len(x): constants, len(...) of anything, conversions, +/- constants; values kept in a local.
+func affineInLen(v ssa.Value, depth int) (a int64, k int64, ok bool) {
+	if depth > 6 {
+		return 0, 0, false
+	}
+	switch x := v.(type) {
+	case *ssa.Const:
+		if x.Value != nil && x.Value.Kind() == constant.Int {
+			if n, exact := constant.Int64Val(x.Value); exact {
+				return n, 0, true
+			}
+		}
+	case *ssa.Convert:
+		return affineInLen(x.X, depth+1)
+	case *ssa.ChangeType:
+		return affineInLen(x.X, depth+1)
+	case *ssa.Call:
+		if bi, isB := x.Call.Value.(*ssa.Builtin); isB && bi.Name() == "len" {
+			return 0, 1, true
+		}
+	case *ssa.BinOp:
+		if x.Op == token.ADD || x.Op == token.SUB {
+			a1, k1, ok1 := affineInLen(x.X, depth+1)
+			a2, k2, ok2 := affineInLen(x.Y, depth+1)
+			if ok1 && ok2 {
+				if x.Op == token.ADD {
+					return a1 + a2, k1 + k2, true
+				}
+				return a1 - a2, k1 - k2, true
+			}
+		}
+	}
+	return 0, 0, false
+}
+
+func affineText(a, k int64) string {
+	switch {
+	case k == 0:
+		return fmt.Sprint(a)
+	case a == 0 && k == 1:
+		return "len(table)"
+	case k == 1 && a < 0:
+		return fmt.Sprintf("len(table)%d", a)
+	case k == 1:
+		return fmt.Sprintf("len(table)+%d", a)
+	}
+	return fmt.Sprintf("%d+%d*len(table)", a, k)
 }
